@@ -146,6 +146,14 @@ def constructors(ctx, F):
 
 
 def text_gates(ctx, r, F, strict):
+    RM = layout.text_reader_evaluated(F)
+    if RM is not None:
+        # decided by abstract evaluation of the parser: accepted exactly when the lenient conditions hold and (strict) both decoded
+        # parts are valid; InvalidChecksum / LengthIsTooLarge only when they apply, and exactly that error when it is the only reason
+        ctx.instance(r, RM["evaluations"])
+        ctx.ob(r, ("from_str_bytes", "strict-gates" if strict else "lenient-has-no-gate"), not RM["bad"], "; ".join(RM["bad"][:3]), cfg=F.key,
+               where=RM["body"].where(), detail={"evaluations": RM["evaluations"], "engine": "evaluation"})
+        return ["decided by evaluation"]
     R, err = layout.text_reader(F)
     ctx.instance(r)
     if R is None:
